@@ -401,7 +401,11 @@ class UniversalPrecondition(Precondition):
         super().__init__(binary_operator)
 
     def __str__(self):
-        if len(self.operands) == 0:
+        if (
+            len(self.operands) == 0
+            and len(self.equality_preconditions) == 0
+            and len(self.inequality_preconditions) == 0
+        ):
             return ""
 
         internal_condition_string = super()._print_self()
